@@ -516,6 +516,10 @@ theorem handshaker_hands_out_live_connections_once (s : Handshaker.State) (hr : 
     s.handed.Nodup ∧ ∀ c ∈ s.handed, c ∉ s.shut :=
   ⟨(Handshaker.reach_inv s hr).handedNodup, (Handshaker.reach_inv s hr).handedOpen⟩
 
+/-- the handshaker never sits on a finished handshake: while it is open, no Wait is parked when a result is queued -/
+theorem handshaker_never_sits_on_a_result (s : Handshaker.State) (hr : Handshaker.Reach s) (ho : s.closed = false) :
+    s.waiters = [] ∨ s.done = [] := Handshaker.reach_quiet s hr ho
+
 /-- non-vacuity: one connection handed out, one failed, one still shaking hands at Close, one arriving after Close -/
 example :
     let s := Handshaker.run Handshaker.init [.start 1, .start 2, .start 3, .finish 1 true, .wait 7, .finish 2 false, .close, .start 4]
